@@ -37,6 +37,7 @@ type FuncSpec struct {
 	Ensures    []*Clause
 	Canaries   []*Clause // ensures-clauses that must FAIL
 	Modifies   []*Expr
+	Preserves  []*Expr // with 'modifies everything': heap variables that are nevertheless left alone
 	ModifiesT  []string
 	HasMod     bool
 	Loops      map[int]*LoopSpec
@@ -96,7 +97,7 @@ func NewSpecDB() *SpecDB {
 
 var clauseKeywords = map[string]bool{
 	"property": true, "pure": true, "axiom": true, "ghost": true, "global": true, "func": true, "extern": true,
-	"fieldspec": true, "ghostset": true, "define": true, "requires": true, "ensures": true, "modifies": true, "loop": true, "canary": true, "flag": true,
+	"fieldspec": true, "ghostset": true, "preserves": true, "define": true, "requires": true, "ensures": true, "modifies": true, "loop": true, "canary": true, "flag": true,
 	"inline": true, "trusted": true, "assume": true,
 }
 
@@ -426,6 +427,17 @@ func (db *SpecDB) LoadFile(file string, defaultPkg string) error {
 				return errf(rc, "%v", err)
 			}
 			cur.GhostSets = append(cur.GhostSets, [2]*Expr{te, ve})
+		case "preserves":
+			if cur == nil {
+				return errf(rc, "preserves outside a func")
+			}
+			for _, p := range splitTopLevel(rest, ',') {
+				e, err := ParseExpr(p)
+				if err != nil {
+					return errf(rc, "%v", err)
+				}
+				cur.Preserves = append(cur.Preserves, e)
+			}
 		case "modifies":
 			if cur == nil {
 				return errf(rc, "modifies outside a func")
